@@ -10,7 +10,9 @@
   each running an arbitrary finite list of `Do k` / `Get k` calls.
 
   The driver's f for key k returns the value `k#i` on its i-th invocation (so a second invocation would
-  be visible in every value).  Deciding expressions / operation order come from GIV.Gen.ParCache.  Core Lean only.
+  be visible in every value) — except for the keys the scenario marks as *nil keys* (`Cfg.nilKey`), whose f
+  returns Go's untyped `nil` (`none`): `e.result` then stays nil although the computation is complete, which
+  `done` alone records.  Deciding expressions / operation order come from GIV.Gen.ParCache.  Core Lean only.
 -/
 import GIV.Gen.ParCache
 namespace GIV.ParCache
@@ -30,9 +32,13 @@ inductive Op
   | getK (k : Key)
   deriving DecidableEq, Repr
 
-/-- the calls each goroutine makes, in order -/
+/-- the calls each goroutine makes, in order, and the keys whose f returns nil -/
 structure Cfg where
   prog : TaskId → List Op
+  nilKey : Key → Bool := fun _ => false
+
+/-- what the `i`-th invocation of the driver's f for key `k` returns (`none` = Go's nil) -/
+def Cfg.fval (c : Cfg) (k : Key) (i : Nat) : Option Val := if c.nilKey k then none else some ⟨k, i⟩
 
 inductive Pc
   | init | idle | exited
@@ -42,8 +48,8 @@ inductive Pc
   | dLock (k : Key)            -- Do: e.mu.Lock()
   | dLoad2 (k : Key)           -- Do: atomic.LoadUint32(&e.done), under e.mu
   | dFEnter (k : Key)          -- Do: call f
-  | dInF (k : Key) (v : Val)   -- inside f, which will return v
-  | dWrite (k : Key) (v : Val) -- Do: plain write e.result = v
+  | dInF (k : Key) (v : Option Val)   -- inside f, which will return v (none = nil)
+  | dWrite (k : Key) (v : Option Val) -- Do: plain write e.result = v
   | dStore (k : Key)           -- Do: atomic.StoreUint32(&e.done, 1)
   | dUnlock (k : Key)          -- Do: e.mu.Unlock()
   | dRet (k : Key)             -- Do: plain read `return e.result`
@@ -62,7 +68,7 @@ inductive Event
   | atomicLoad (k : Key) (v : Int)
   | atomicStore (k : Key) (v : Int)
   | lock (k : Key) | unlock (k : Key)
-  | fEnter (k : Key) | fExit (k : Key) (v : Val)
+  | fEnter (k : Key) | fExit (k : Key) (v : Option Val)
   | write (k : Key)
   deriving DecidableEq, Repr
 
@@ -73,7 +79,7 @@ structure KState where
   owner : Option TaskId   -- e.mu
   result : Option Val     -- e.result (nil = none)
   fcalls : Nat            -- ghost: number of invocations of f for the key
-  fret : Option Val       -- ghost: what the (last) completed invocation of f returned
+  fret : Option (Option Val)  -- ghost: what the (last) completed invocation of f returned (none = no invocation completed yet; some none = it returned nil)
   deriving Repr
 
 structure State where
@@ -104,7 +110,7 @@ def afterStore (k : Key) : Pc := if storeAfterResult then .dUnlock k else .dFEnt
 /-- Get after a map hit -/
 def afterHit (k : Key) : Pc := if getChecksDone then .gLoad1 k else .gRet k
 
-def step (_c : Cfg) (s : State) (t : TaskId) (e : Event) : Option State :=
+def step (c : Cfg) (s : State) (t : TaskId) (e : Event) : Option State :=
   if !shapeOK then none else
   match s.pc t with
   | .exited => none
@@ -138,12 +144,12 @@ def step (_c : Cfg) (s : State) (t : TaskId) (e : Event) : Option State :=
     else none
   | .dFEnter k =>
     if e = .fEnter k then
-      some ((s.setKey k { s.key k with fcalls := (s.key k).fcalls + 1 }).setPc t (.dInF k ⟨k, (s.key k).fcalls + 1⟩))
+      some ((s.setKey k { s.key k with fcalls := (s.key k).fcalls + 1 }).setPc t (.dInF k (c.fval k ((s.key k).fcalls + 1))))
     else none
   | .dInF k v =>
     if e = .fExit k v then some ((s.setKey k { s.key k with fret := some v }).setPc t (.dWrite k v)) else none
   | .dWrite k v =>
-    if e = .write k then some ((s.setKey k { s.key k with result := some v }).setPc t (afterWrite k)) else none
+    if e = .write k then some ((s.setKey k { s.key k with result := v }).setPc t (afterWrite k)) else none
   | .dStore k =>
     if e = .atomicStore k doneStoreValue then
       some ((s.setKey k { s.key k with done := doneStoreValue }).setPc t (afterStore k))
